@@ -62,7 +62,7 @@ Definition assignable (t s : ty) : bool :=
 Definition elem_ok (elt s : ty) : bool :=
   match elt, s with
   | TInt, TInt | TInt, TBit | TInt, TFloat => true
-  | TLong, TLong | TLong, TInt | TLong, TBit => true
+  | TLong, TLong | TLong, TInt => true
   | TFloat, TFloat | TFloat, TInt | TFloat, TBit => true
   | TBit, TBit | TBool, TBool | TStr, TStr | TChar, TChar => true
   | _, _ => false
@@ -116,7 +116,7 @@ Section Check.
     | ECast t a => match type_expr G a with Some ta => cast_ty t ta | None => None end
     | EIndex a i =>
         match type_expr G a, type_expr G i with
-        | Some (TArr t), Some ti => if integral ti then Some t else None
+        | Some (TArr t), Some ti => if numeric ti then Some t else None      (* "index must be numeric" *)
         | _, _ => None
         end
     | EArr es =>
